@@ -288,8 +288,25 @@ theorem vDuration_some (t : Str) (sg : Option Str)
   obtain ⟨g1, g2, g3, g4, g5⟩ := g
   simp only [vDuration_from_ical, Option.isSome_some, Bool.not_true, Bool.false_eq_true, if_false, groupsOf]
   simp only [bind, Except.bind, pure, Except.pure] at h ⊢
-  rw [h]
-  simp [remap]
+  -- every `int(x or 0)` succeeded (their chain did); holds wherever the source places the negation
+  cases h1 : intOfOptStrOr g1 0 with
+  | error e => simp [h1] at h
+  | ok a =>
+    cases h2 : intOfOptStrOr g2 0 with
+    | error e => simp [h1, h2] at h
+    | ok b =>
+      cases h3 : intOfOptStrOr g3 0 with
+      | error e => simp [h1, h2, h3] at h
+      | ok c =>
+        cases h4 : intOfOptStrOr g4 0 with
+        | error e => simp [h1, h2, h3, h4] at h
+        | ok d =>
+          cases h5 : intOfOptStrOr g5 0 with
+          | error e => simp [h1, h2, h3, h4, h5] at h
+          | ok e =>
+            simp only [h1, h2, h3, h4, h5, Except.ok.injEq] at h
+            subst h
+            cases hs : (sg == some ['-']) <;> simp [remap, hs]
 
 /-- the sign character, the body groups and the body value fit together -/
 theorem dur_sign_cases (t : Str) :
